@@ -170,6 +170,32 @@ def run_config(S, case):
         if (cfg.setup_command, cfg.teardown_command, cfg.node_setup_command, cfg.node_teardown_command) != \
                 (back.setup_command, back.teardown_command, back.node_setup_command, back.node_teardown_command):
             failed.append("round trip changed a lifecycle command")
+        # (a2) dump - edit through the public job API - dump again: the second file carries the edited configuration (a write must reflect
+        # the object as it is NOW, whatever was serialized before)
+        jobs = list(cfg.iter_jobs())
+        names = [j.name for j in jobs]
+        for j in jobs:
+            r = rng.random()
+            bl = sorted(j.get_blocking_jobs())
+            earlier = names[:names.index(j.name)]
+            if r < 0.25 and bl:
+                j.remove_blocking_job(rng.choice(bl))
+            elif r < 0.45 and earlier:
+                j.get_blocking_jobs().add(rng.choice(earlier))             # in-place edit of the live set
+            elif r < 0.6 and earlier:
+                j.set_blocking_jobs(set(rng.sample(earlier, rng.randint(0, min(2, len(earlier))))))
+            elif r < 0.7:
+                j.cancel_on_blocking_job_failure = not j.cancel_on_blocking_job_failure
+        path2 = os.path.join(d, "cfg2.json")
+        cfg.dump(path2)
+        back2 = create_config_from_file(path2)
+        for j1, j2 in zip(cfg.iter_jobs(), back2.iter_jobs()):
+            t1 = (j1.name, j1.command, set(j1.get_blocking_jobs()), j1.cancel_on_blocking_job_failure, j1.submission_group, j1.estimated_run_minutes)
+            t2 = (j2.name, j2.command, set(j2.get_blocking_jobs()), j2.cancel_on_blocking_job_failure, j2.submission_group, j2.estimated_run_minutes)
+            if t1 != t2:
+                failed.append(f"dump after an edit wrote stale data for job {j1.name}: object {t1}, file {t2}")
+        if len(list(back2.iter_jobs())) != len(jobs):
+            failed.append("dump after an edit changed the number of jobs")
         # (b) injected invalidity on the reloaded configuration
         applied, expect = inject(rng, back, case["kind"])
         if not applied:
